@@ -289,6 +289,138 @@ theorem Shuffle.single {α : Type} {ms : List (List α)} {l : List α} (h : Shuf
     rw [this, hk, List.getElem?_set_self hlt]
     rfl
 
+theorem Shuffle.mem {α : Type} {ms : List (List α)} {l : List α} (h : Shuffle ms l) :
+    ∀ x ∈ l, ∃ m ∈ ms, x ∈ m := by
+  induction h with
+  | nil _ => intro x hx; cases hx
+  | @cons ms l i x m hi _ ih =>
+    intro y hy
+    have hxm : (x :: m) ∈ ms := List.mem_of_getElem? hi
+    rcases List.mem_cons.mp hy with rfl | hy
+    · exact ⟨_, hxm, by simp⟩
+    · obtain ⟨m', hm', hym⟩ := ih y hy
+      rcases List.mem_or_eq_of_mem_set hm' with h | h
+      · exact ⟨m', h, hym⟩
+      · subst h; exact ⟨_, hxm, List.mem_cons_of_mem _ hym⟩
+
+/-- An interleaving of mapped sequences is the map of an interleaving: when every channel send carries one
+complete item (`f x`), whatever order the items arrive in is an order of whole items. -/
+theorem Shuffle.of_map {α β : Type} (f : α → β) {cs : List (List β)} {l : List β} (h : Shuffle cs l) :
+    ∀ ms : List (List α), cs = ms.map (List.map f) → ∃ fl, Shuffle ms fl ∧ l = fl.map f := by
+  induction h with
+  | @nil cs hall =>
+    intro ms hcs
+    refine ⟨[], Shuffle.nil ?_, rfl⟩
+    intro m hm
+    have : m.map f ∈ cs := by rw [hcs]; exact List.mem_map_of_mem hm
+    have := hall _ this
+    simpa using this
+  | @cons cs l i x m hi _ ih =>
+    intro ms hcs
+    subst hcs
+    rw [List.getElem?_map] at hi
+    cases hmi : ms[i]? with
+    | none => rw [hmi] at hi; cases hi
+    | some mi =>
+      rw [hmi] at hi
+      simp only [Option.map_some, Option.some.injEq] at hi
+      cases mi with
+      | nil => simp at hi
+      | cons y m' =>
+        simp only [List.map_cons, List.cons.injEq] at hi
+        obtain ⟨hy, hm'⟩ := hi
+        have hset : (ms.map (List.map f)).set i m = (ms.set i m').map (List.map f) := by
+          rw [List.map_set, hm']
+        obtain ⟨fl, hfl, hl⟩ := ih (ms.set i m') hset
+        exact ⟨y :: fl, Shuffle.cons i y m' hmi hfl, by simp [hy, hl]⟩
+
+/-! ### the goroutine system -/
+
+theorem Sys.step_take {α : Type} {s s1 : Sys α} {i : Nat} (h : s.take i = some s1) :
+    ∃ c m, s.writer.inflight = [] ∧ s.senders[i]? = some (c :: m) ∧
+      s1.senders = s.senders.set i m ∧ s1.writer.inflight = [c] ∧ s1.out = s.out := by
+  unfold Sys.take at h
+  split at h
+  · rename_i c m hw hs
+    cases h
+    exact ⟨c, m, by rw [hw]; rfl, hs, rfl, rfl, rfl⟩
+  · cases h
+
+theorem Sys.step_write {α : Type} {s s1 : Sys α} (h : s.write = some s1) :
+    ∃ c, s.writer.inflight = [c] ∧ s1.senders = s.senders ∧ s1.writer.inflight = [] ∧ s1.out = s.out ++ [c] := by
+  unfold Sys.write at h
+  split at h
+  · rename_i c hw
+    cases h
+    exact ⟨c, by rw [hw]; rfl, rfl, rfl, rfl⟩
+  · cases h
+
+theorem Sys.step_close {α : Type} {s s1 : Sys α} (h : s.close = some s1) :
+    s.writer.inflight = [] ∧ s1.senders = s.senders ∧ s1.writer.inflight = [] ∧ s1.out = s.out := by
+  unfold Sys.close at h
+  split at h
+  · rename_i hw
+    cases h
+    exact ⟨by rw [hw]; rfl, rfl, rfl, rfl⟩
+  · cases h
+
+/-- Every run of the goroutine system to quiescence writes, after what was already written and the slice in
+flight, an interleaving (`Shuffle`) of the senders' remaining sends: each sender's sends in its program
+order, nothing lost, nothing duplicated, nothing else. -/
+theorem Sys.exec_shuffle {α : Type} (steps : List Step) : ∀ (s s' : Sys α), s.exec steps = some s' → s'.quiescent = true →
+    ∃ l, Shuffle s.senders l ∧ s'.out = s.out ++ s.writer.inflight ++ l := by
+  induction steps with
+  | nil =>
+    intro s s' h hq
+    simp only [Sys.exec, Option.some.injEq] at h
+    subst h
+    simp only [Sys.quiescent, Bool.and_eq_true, List.all_eq_true, List.isEmpty_iff] at hq
+    exact ⟨[], Shuffle.nil hq.1, by simp [hq.2]⟩
+  | cons st rest ih =>
+    intro s s' h hq
+    simp only [Sys.exec] at h
+    cases hs : s.step st with
+    | none => rw [hs] at h; cases h
+    | some s1 =>
+      rw [hs] at h
+      obtain ⟨l, hl, hout⟩ := ih s1 s' h hq
+      cases st with
+      | take i =>
+        obtain ⟨c, m, hw, hi, hsend, hw1, ho1⟩ := Sys.step_take hs
+        rw [hsend] at hl
+        exact ⟨c :: l, Shuffle.cons i c m hi hl, by rw [hout, hw, hw1, ho1]; simp⟩
+      | write =>
+        obtain ⟨c, hw, hsend, hw1, ho1⟩ := Sys.step_write hs
+        rw [hsend] at hl
+        exact ⟨l, hl, by rw [hout, hw, hw1, ho1]; simp⟩
+      | close =>
+        obtain ⟨hw, hsend, hw1, ho1⟩ := Sys.step_close hs
+        rw [hsend] at hl
+        exact ⟨l, hl, by rw [hout, hw, hw1, ho1]⟩
+
+/-- Conversely every interleaving is the output of a run (the model does not exclude any order). -/
+theorem Sys.shuffle_reachable {α : Type} {ms : List (List α)} {l : List α} (h : Shuffle ms l) :
+    ∀ o : List α, ∃ steps s', (Sys.mk ms .idle o).exec steps = some s' ∧ s'.quiescent = true ∧ s'.out = o ++ l := by
+  induction h with
+  | @nil ms hall =>
+    intro o
+    refine ⟨[], _, rfl, ?_, by simp⟩
+    simp only [Sys.quiescent, Bool.and_eq_true, List.all_eq_true, List.isEmpty_iff]
+    exact ⟨hall, rfl⟩
+  | @cons ms l i x m hi _ ih =>
+    intro o
+    obtain ⟨steps, s', he, hq, ho⟩ := ih (o ++ [x])
+    refine ⟨.take i :: .write :: steps, s', ?_, hq, by rw [ho]; simp⟩
+    simp only [Sys.exec, Sys.step, Sys.take, Sys.write, hi]
+    exact he
+
+theorem senderChunks_whole (m : List Frame) : senderChunks true m = m.map encode := by
+  induction m with
+  | nil => rfl
+  | cons f m ih =>
+    simp only [senderChunks, List.flatMap_cons, chunksOf, if_true, List.map_cons] at ih ⊢
+    rw [ih]; rfl
+
 /-! ### body logger -/
 
 theorem bodyRun_returns (mt : UInt8) (id : Bytes) (rs : List ReadRes) : ∀ ctr, (bodyRun mt id ctr rs).1 = rs := by
